@@ -105,8 +105,9 @@ def rule_wmf(S):
         return st
 
     Explorer(sv, step, branch).run('?')
-    S.ob('R-WMF', sv.qname, 'direct free only when no old_value out-pointer is given', res['ok'] and res['seen'],
-         'guarded by old_value == nullptr' if res['ok'] else 'the displaced value can be freed although the caller asked for it',
+    S.ob('R-WMF', sv.qname, 'direct free only when no old_value out-pointer is given', res['ok'],
+         ('guarded by old_value == nullptr' if res['seen'] else 'set_value frees nothing itself') if res['ok'] else
+         'the displaced value can be freed although the caller asked for it',
          loc=sv.loc, path=res['path'])
     # callers of set_value: an existing entry's slot may hold an out-of-line value whatever the value type of the call is
     # (finding F9), so whoever overwrites an entry found by a lookup must take the displaced value and retire it
